@@ -5,7 +5,7 @@ from .common import *   # noqa: F401,F403
 from . import linegen as lg
 
 LEAF = ['Leaf_chart', 'Leaf_fromfile']      # translated functions this property's model relies on (Tie/<name>.v)
-RULE = ("[Song] bodies given to Metadata.from_chart_lines: every singleton and all-but-one subset of the 23 optional fields (thorough) and random subsets, random permutations of the lines, "
+RULE = ("[Song] bodies given to Metadata.from_chart_lines (and, for a third of those that can stand in a file, also as the [Song] section of a whole chart through Chart.from_file): every singleton and all-but-one subset of the 23 optional fields (thorough) and random subsets, random permutations of the lines, "
         "string values containing quotes, '=', ' = ', other fields' names and whole other fields' lines, leading/trailing blanks inside the quotes, non-ASCII; integers of 1-19 digits "
         "(beyond 2^53), quoted and unquoted, non-ASCII decimal digits; Player2 bass/rhythm/other; unknown fields; duplicate fields; missing Resolution; judged against the documented "
         "configuration (reference recognisers, documented kinds and defaults) evaluated inside Coq. Non-trivial: >= 2 fields present or a value with a quote/'='/field name or a default taken; distinct by lines")
@@ -72,14 +72,36 @@ def gen_lines(rng, fields, with_res=True):
     return lines
 
 
-def make_case(lines):
+BREAKS = set("\n\r\x0b\x0c\x1c\x1d\x1e\x85\u2028\u2029")
+
+
+def via_chart_ok(lines):
+    """May these [Song] lines be observed through Chart.from_file as well?  (They must survive being joined into a file, and the rest
+    of the chart must parse: a positive resolution.)"""
     import chartparse.metadata as M
-    out = pyval.r_result(lambda: M.Metadata.from_chart_lines(iter(list(lines))), pyval.r_metadata)
+    if any(l in ("{", "}") or (set(l) & BREAKS) for l in lines):
+        return False
+    try:
+        return M.Metadata.from_chart_lines(iter(list(lines))).resolution >= 1
+    except Exception:  # noqa: BLE001
+        return False
+
+
+def make_case(lines, via_chart=False):
+    import io
+    import chartparse.metadata as M
+    import chartparse.chart as C
+    if via_chart:
+        # the same lines as the body of [Song] in a whole chart: the glue between the file and the [Song] parser must hand them on verbatim
+        text = chart_text(res=None, song=lines, indent="")
+        out = pyval.r_result(lambda: C.Chart.from_file(io.StringIO(text, newline="")).metadata, pyval.r_metadata)
+    else:
+        out = pyval.r_result(lambda: M.Metadata.from_chart_lines(iter(list(lines))), pyval.r_metadata)
     nfields = sum(1 for l in lines if " = " in l)
-    return dict(case=dict(lines=lines), in_term=coq_list(coq_str(l) for l in lines), out_term=out,
+    return dict(case=dict(lines=lines, via_chart=via_chart), in_term=coq_list(coq_str(l) for l in lines), out_term=out,
                 nontrivial=nfields >= 2 or any('"' in l[l.find("=") + 3:-1] for l in lines if "=" in l),
-                tags=["fields=%d" % min(nfields, 8), "accepted" if out.startswith("(Ok") else "error"],
-                signature="C10:" + key_of(lines))
+                tags=["fields=%d" % min(nfields, 8), "accepted" if out.startswith("(Ok") else "error", "via_chart" if via_chart else "direct"],
+                signature="C10:" + key_of([lines, via_chart]))
 
 
 FIXED = [
@@ -98,7 +120,7 @@ def cases(ctx, n):
     rng = ctx["rng"]
     out = [make_case(l) for l in FIXED]
     for c in load_corpus("C10"):
-        out.append(make_case(c["lines"]))
+        out.append(make_case(c["lines"], c.get("via_chart", False)))
     for f in ALL_OPT:
         out.append(make_case(gen_lines(rng, [f])))
     if ctx["tier"] != "quick":
@@ -107,13 +129,14 @@ def cases(ctx, n):
     while len(out) < n:
         k = rng.choice([0, 1, 2, 3, 5, 8, 23])
         fields = rng.sample(ALL_OPT, k)
-        out.append(make_case(gen_lines(rng, fields, with_res=rng.random() < 0.9)))
+        lines = gen_lines(rng, fields, with_res=rng.random() < 0.9)
+        out.append(make_case(lines, via_chart=rng.random() < 0.35 and via_chart_ok(lines)))
     return out
 
 
 def run(ctx, only=None):
     if only:
-        cs = [make_case(c["lines"]) for c in only if c]
+        cs = [make_case(c["lines"], c.get("via_chart", False)) for c in only if c]
     else:
         cs = cases(ctx, 700 if ctx["tier"] == "quick" else 20000)
     return run_cases("C10", cs, IN_TYPE, OUT_TYPE, VERDICT, SPEC, shard_size=50)
